@@ -57,7 +57,18 @@ fn paired(base: ScenarioFn, name: &'static str, cfg: &ScenCfg, out: &mut RunOut)
         out.violate(
             "C20",
             "level_change_disturbs_run",
-            format!("{}: a decode-level change to level {} injected before action {} changes the observable outcome at byte {} ({} vs {}; injected={})", name, lvl, k, at, desc(&o1), desc(&o3), injected),
+            format!(
+                "{}: a decode-level change to level {} injected before action {} changes the observable outcome at byte {} ({} vs {}; injected={}); without the change ..{:?}.., with it ..{:?}..",
+                name,
+                lvl,
+                k,
+                at,
+                desc(&o1),
+                desc(&o3),
+                injected,
+                String::from_utf8_lossy(&o1.observable[at.saturating_sub(40)..(at + 200).min(o1.observable.len())]),
+                String::from_utf8_lossy(&o3.observable[at.saturating_sub(40)..(at + 200).min(o3.observable.len())])
+            ),
         );
     }
     out.probe_n("level_change_injected", injected);
